@@ -25,7 +25,7 @@ func c01Layers(c *Ctx) []sweepLayer {
 			{"L3", GenOpts{OneGate: true, LeafSet: 2, Reps: true}, 3, four},
 			{"scale", GenOpts{Scale: true, ScaleThorough: true}, 0, coveringFlags8(ns)},
 			{"spellings", GenOpts{LeafSet: 1, Spellings: true, FieldNames: []string{"fld", "pr\u00e9nom/x", "\U0001F600k", "owner", "tags", "qty"}}, 1, four},
-			rootedLayers(true, four)[0], rootedLayers(true, four)[1],
+			rootedLayers(true, four[:2])[0], rootedLayers(true, four[:2])[1],
 		}
 	}
 	return []sweepLayer{
